@@ -28,7 +28,7 @@ RULE = ('cases are edit histories in an operation DSL (cell assignment, add/set/
         'RuleBasedStateMachine over 8+8 pool names plus fresh names, argument lists up to 5 with repeats, <= 50 '
         'steps, other-definitions drawn or snapshots of earlier states. Oracle after every step: (objects, '
         'properties, bools), return value and outcome class equal the model; a call the model rejects raises and '
-        'leaves triple and hidden state unchanged; d == Definition(*d) and bools is len(objects) x len(properties). '
+        'leaves the triple unchanged (a difference in private attributes is only counted: residue must show up in what later steps observe); d == Definition(*d) and bools is len(objects) x len(properties). '
         'A history is non-trivial when it has >= 3 mutating steps and contains a remove or rename followed later by '
         're-adding the same name, or a rejected call.')
 ASSUMPTIONS = ['ordered-table model vlib/defmodel.py written from the property statement and the doctests']
